@@ -16,6 +16,8 @@ def extract_all():
     memo.extract()
     from . import infer
     infer.extract()
+    from . import roar
+    roar.extract()
     from . import conf
     try:
         conf.extract()
